@@ -4,6 +4,7 @@ import (
 	"crypto/sha256"
 	"encoding/hex"
 	"fmt"
+	"io"
 	"math/big"
 	"os"
 	"runtime"
@@ -11,10 +12,13 @@ import (
 	"strings"
 	"time"
 
+	"cosmossdk.io/log"
 	storetypes "cosmossdk.io/store/types"
 	abci "github.com/cometbft/cometbft/abci/types"
+	"github.com/cosmos/cosmos-sdk/telemetry"
 	sdk "github.com/cosmos/cosmos-sdk/types"
 	"github.com/cosmos/gogoproto/proto"
+	"github.com/rs/zerolog"
 
 	opchild "github.com/initia-labs/OPinit/x/opchild"
 )
@@ -131,8 +135,40 @@ func printOf(r ExecResult, ctx sdk.Context, keys map[string]*storetypes.KVStoreK
 
 // a fresh gas meter before every compared operation: what it consumes (also on the branch of a
 // failing message, which baseapp reports as gas used) is part of the compared trace
-func freshGasL1(e *L1Env) { e.Ctx = e.Ctx.WithGasMeter(storetypes.NewInfiniteGasMeter()) }
-func freshGasL2(e *L2Env) { e.Ctx = e.Ctx.WithGasMeter(storetypes.NewInfiniteGasMeter()) }
+// (the same hook also applies the node-local, non-consensus settings that live on the context: the
+// logger implementation / level and the operator's min-gas-prices, which only CheckTx may look at)
+func freshGasL1(e *L1Env) { e.Ctx = c18LocalCtx(e.Ctx.WithGasMeter(storetypes.NewInfiniteGasMeter())) }
+func freshGasL2(e *L2Env) { e.Ctx = c18LocalCtx(e.Ctx.WithGasMeter(storetypes.NewInfiniteGasMeter())) }
+
+var c18CtxEnv int
+var c18TelemetryOn bool
+
+// the SDK's telemetry switch is a process-global set from the operator's app.toml
+func c18SetTelemetry(on bool) {
+	if on == c18TelemetryOn {
+		return
+	}
+	if _, err := telemetry.New(telemetry.Config{Enabled: on, ServiceName: "c18", EnableHostname: false}); err != nil {
+		panic(err)
+	}
+	c18TelemetryOn = on
+}
+
+var c18Loggers = []log.Logger{log.NewNopLogger(), log.NewLogger(io.Discard), log.NewLogger(io.Discard, log.LevelOption(zerolog.ErrorLevel)), log.NewNopLogger()}
+
+func c18LocalCtx(ctx sdk.Context) sdk.Context {
+	ctx = ctx.WithLogger(c18Loggers[c18CtxEnv%len(c18Loggers)])
+	if ctx.IsCheckTx() {
+		return ctx
+	}
+	switch c18CtxEnv % 4 {
+	case 1:
+		return ctx.WithMinGasPrices(sdk.DecCoins{sdk.NewInt64DecCoin("uinit", 7), sdk.NewInt64DecCoin("unative", 1000000)})
+	case 2:
+		return ctx.WithMinGasPrices(sdk.DecCoins{sdk.NewInt64DecCoin("l2/none", 1)})
+	}
+	return ctx.WithMinGasPrices(nil)
+}
 
 // every execution of a history runs on its OWN fresh goroutine (sequentially; the calling
 // goroutine only waits and compares): anything that leaks goroutine identity or stack
@@ -146,14 +182,22 @@ func inLocalEnv(x int, fn func()) {
 		tz, lang, home string
 		procs          int
 		dir            string
+		telemetry      bool // the SDK's process-global telemetry switch (app.toml [telemetry] enabled)
 	}
 	envs := []envT{
-		{time.UTC, "UTC", "C", "/nonexistent-home-a", 1, "/"},
-		{time.FixedZone("A", 9*3600), "Asia/Tokyo", "ja_JP.UTF-8", "/tmp", 4, os.TempDir()},
-		{time.FixedZone("B", -8*3600), "America/Los_Angeles", "en_US.UTF-8", "/root", 2, "/usr"},
-		{time.FixedZone("C", 5*3600+1800), "Asia/Kolkata", "de_DE.ISO-8859-1", "/", 3, "/var"},
+		{time.UTC, "UTC", "C", "/nonexistent-home-a", 1, "/", false},
+		{time.FixedZone("A", 9*3600), "Asia/Tokyo", "ja_JP.UTF-8", "/tmp", 4, os.TempDir(), true},
+		{time.FixedZone("B", -8*3600), "America/Los_Angeles", "en_US.UTF-8", "/root", 2, "/usr", false},
+		{time.FixedZone("C", 5*3600+1800), "Asia/Kolkata", "de_DE.ISO-8859-1", "/", 3, "/var", true},
 	}
 	en := envs[x%len(envs)]
+	c18SetTelemetry(en.telemetry)
+	savedCtxEnv := c18CtxEnv
+	c18CtxEnv = x % len(envs)
+	defer func() {
+		c18SetTelemetry(false)
+		c18CtxEnv = savedCtxEnv
+	}()
 	savedZone, savedProcs := time.Local, runtime.GOMAXPROCS(0)
 	savedDir, _ := os.Getwd()
 	keys := []string{"TZ", "LANG", "LC_ALL", "HOME"}
@@ -874,6 +918,7 @@ func genC18(seed uint64, tier string, outdir string) *Report {
 	genC18Oracle(rep, seed, tier, R, &id)
 	genC18Genesis(rep, seed, tier, R, &id)
 	genC18Hook(rep, seed, tier, R, &id)
+	genC18Header(rep, seed, tier, R, &id)
 	genC18Sched(rep, seed, tier, &id)
 	if tier == "thorough" || os.Getenv("VERIF_C18_RACE") != "" {
 		c18RaceExtra(rep, seed)
